@@ -312,8 +312,9 @@ func (d *hoDriver) height() error {
 			}
 			kind := kinds[r.Intn(len(kinds))]
 			fault = site + ":" + kind
+			oneShot := rare(2) // a transient fault: only the first such call fails, an immediate repetition would get through
 			a.C.Eng.SetFault(func(m string, n int, attr bool) string {
-				if m == site {
+				if m == site && (!oneShot || n == 0) {
 					return kind
 				}
 				return ""
@@ -422,8 +423,9 @@ func (d *hoDriver) height() error {
 			} else {
 				endFcu = kind
 			}
+			oneShot := rare(2) // a transient fault: only the first such call of FinalizeBlock fails
 			a.C.Eng.SetFault(func(m string, n int, attr bool) string {
-				if m == site {
+				if m == site && (!oneShot || n == 0) {
 					return kind
 				}
 				return ""
